@@ -4,7 +4,8 @@
 // input  line: (id op arg ...)          operands are literals or $k = result of line k
 // output line: (id (op arg' ...) res)   arg' = operand values as the implementation holds them
 //
-// Every operation runs under catch_unwind; a panic is the result `PANIC`.
+// Every operation runs under catch_unwind; a panic is the result `PANIC`; an operation that does not return within
+// VERIF_HANG_SECS (default 120) is the result `HANG`.
 mod ops;
 mod sexp;
 mod areas {
@@ -26,6 +27,8 @@ fn main() {
     let stdout = std::io::stdout();
     let mut out = std::io::BufWriter::new(stdout.lock());
     let mut results: HashMap<String, S> = HashMap::new();
+    let hang = std::time::Duration::from_secs(std::env::var("VERIF_HANG_SECS").ok().and_then(|s| s.parse().ok()).unwrap_or(120));
+    let mut worker = spawn_worker();
     for line in input.lines() {
         let line = line.expect("read line");
         let line = line.trim();
@@ -38,16 +41,13 @@ fn main() {
         // resolve references
         let resolved: Vec<S> = items[1..].iter().map(|x| resolve(x, &results)).collect();
         let call = S::L(resolved.clone());
-        let res = match std::panic::catch_unwind(std::panic::AssertUnwindSafe(|| ops::run(&resolved))) {
-            Ok(v) => v,
-            Err(payload) => {
-                let msg = if let Some(m) = payload.downcast_ref::<String>() {
-                    m.clone()
-                } else if let Some(m) = payload.downcast_ref::<&str>() {
-                    m.to_string()
-                } else {
-                    String::new()
-                };
+        // the operation runs on a worker thread: one that does not answer within HANG_SECS is abandoned (result `HANG`,
+        // the thread is left behind and a fresh worker takes over), so that a non-terminating library call costs one case,
+        // not the whole shard
+        worker.jobs.send((id.clone(), resolved.clone())).expect("worker gone");
+        let res = match worker.results.recv_timeout(hang) {
+            Ok(Ok(v)) => v,
+            Ok(Err(msg)) => {
                 // decoding problems of the harness itself (e.g. an operand that is PANIC) are not library panics
                 if msg.starts_with("harness: unknown") {
                     // an operation the harness does not implement is a machinery error, never a silent skip
@@ -59,11 +59,48 @@ fn main() {
                     S::atom("PANIC")
                 }
             }
+            Err(_) => {
+                worker = spawn_worker();
+                S::atom("HANG")
+            }
         };
         writeln!(out, "({} {} {})", id, call, res).unwrap();
         results.insert(id, res);
     }
     out.flush().unwrap();
+}
+
+struct Worker {
+    jobs: std::sync::mpsc::Sender<(String, Vec<S>)>,
+    results: std::sync::mpsc::Receiver<Result<S, String>>,
+}
+
+fn spawn_worker() -> Worker {
+    let (jobs, job_rx) = std::sync::mpsc::channel::<(String, Vec<S>)>();
+    let (res_tx, results) = std::sync::mpsc::channel::<Result<S, String>>();
+    std::thread::Builder::new()
+        .stack_size(1 << 30)
+        .spawn(move || {
+            for (id, resolved) in job_rx {
+                ops::begin_case(&id);
+                let r = match std::panic::catch_unwind(std::panic::AssertUnwindSafe(|| ops::run(&resolved))) {
+                    Ok(v) => Ok(v),
+                    Err(payload) => Err(if let Some(m) = payload.downcast_ref::<String>() {
+                        m.clone()
+                    } else if let Some(m) = payload.downcast_ref::<&str>() {
+                        m.to_string()
+                    } else {
+                        String::new()
+                    }),
+                };
+                ops::begin_case("");
+                if res_tx.send(r).is_err() {
+                    break;
+                }
+            }
+        })
+        .expect("spawn worker");
+    Worker { jobs, results }
 }
 
 fn resolve(x: &S, results: &HashMap<String, S>) -> S {
